@@ -28,6 +28,14 @@ TRUSTED = ['float summation of send times (error < 1 us, quantised to us)', 'sen
 ASSUMPTIONS = ['time.time/random patched in-process; sockets of NetworkingThread not created']
 
 
+PINNED_WINDOW = 200
+
+
+def known_window(th):
+    """size of the window of remembered message ids; a container without `maxlen` is judged against the pinned size"""
+    return getattr(th._known_message_ids, 'maxlen', None) or PINNED_WINDOW
+
+
 def _mk_thread():
     from sdc11073.wsdiscovery import networkingthread as nt
     with mock.patch.object(nt.NetworkingThread, '_create_multicast_in_socket', lambda *a, **k: None), \
@@ -50,7 +58,7 @@ def translate(ctx):
     jtrace = join_trace(nt)
     src = ('import SdcModel.UdpRepeat\nimport SdcModel.UdpSendLoop\nnamespace Sdc.Generated\nopen Sdc.UdpRepeat\n'
            f'def unicast : Params := {p(u)}\ndef multicast : Params := {p(m)}\n'
-           f'def knownIdsMaxlen : Nat := {th._known_message_ids.maxlen}\n'
+           f'def knownIdsMaxlen : Nat := {known_window(th)}\n'
            '/-- SEND_LOOP_BUSY_SLEEP, SEND_LOOP_IDLE_SLEEP in µs -/\n'
            f'def loopCfg : Sdc.UdpSendLoop.Cfg := ⟨{round(nt.SEND_LOOP_BUSY_SLEEP * 1e6)}, {round(nt.SEND_LOOP_IDLE_SLEEP * 1e6)}⟩\n'
            '/-- the compared fields of `_EnqueuedMessage`, in dataclass order -/\n'
@@ -395,7 +403,7 @@ def outbound_order(nt, on_put=None):
             log.append('put')
             if on_put is not None:
                 on_put(th, len([x for x in log if x == 'put']))
-    th._known_message_ids = Ids(maxlen=th._known_message_ids.maxlen)
+    th._known_message_ids = Ids(maxlen=known_window(th))
     th._send_queue = Q(10000)
     msg = mock.MagicMock()
     msg.p_msg.header_info_block.MessageID = 'own-id'
@@ -648,6 +656,8 @@ def loop_oracle(nt, script, sent, queued):
     """the statement at the level of transmissions: every accepted message 1 + repeat times, each transmission not before
     its scheduled time and less than one idle sleep after it"""
     idle = round(nt.SEND_LOOP_IDLE_SLEEP * 1e6)
+    busy = round(nt.SEND_LOOP_BUSY_SLEEP * 1e6)
+    added = {a['msg']: a['at'] for a in script['adds']}
     sched = {(m, r): t for m, r, t in queued}
     for a in script['adds']:
         mine = [s for s in sent if s[1] == a['msg']]
@@ -664,6 +674,10 @@ def loop_oracle(nt, script, sent, queued):
             return 'early', f'message {m} transmission {r} left at {t} us, scheduled for {st} us'
         if t >= st + idle:
             return 'late', f'message {m} transmission {r} left at {t} us, scheduled for {st} us (more than one idle sleep late)'
+        # once the loop has noticed the message (at most one idle sleep after the call) it polls in the busy raster
+        if st >= added[m] + idle and t >= st + busy:
+            return 'late', (f'message {m} transmission {r} left at {t} us, scheduled for {st} us: {t - st} us late although the loop had '
+                            f'pending entries for more than an idle sleep (busy raster {busy} us)')
     return None
 
 
@@ -750,7 +764,7 @@ def run_backpressure(ctx, nt):
 
 def run_known_ids(ctx, nt, th):
     rng = ctx.subrng('ids')
-    maxlen = th._known_message_ids.maxlen
+    maxlen = known_window(th)
     for k in range(ctx.n(30, 300)):
         nids = rng.choice([3, 10, maxlen + 5, 2 * maxlen])
         evs = []
